@@ -338,6 +338,7 @@ func registerMisc(e *Engine) {
 	registerHTTP(e)
 	registerCtxModel(e)
 	registerBufr(e)
+	registerAtomicValue(e)
 	if os.Getenv("GOSYM_NOSUMMARIES") == "" {
 		registerIRC(e)
 	}
